@@ -881,6 +881,10 @@ SET_encode_xer(const asn_TYPE_descriptor_t *td, const void *sptr, int ilevel,
 				/* Mandatory element missing */
 				ASN__ENCODE_FAILED;
 			}
+			/* A stored DEFAULT value reads the same as an absent one */
+			if(elm->default_value_cmp
+			&& elm->default_value_cmp(memb_ptr) == 0)
+				continue;
 		} else {
             memb_ptr = (const void *)((const char *)sptr + elm->memb_offset);
         }
@@ -1053,8 +1057,18 @@ SET_compare(const asn_TYPE_descriptor_t *td, const void *aptr,
                 *(const void *const *)((const char *)bptr + elm->memb_offset);
             if(!amemb) {
                 if(!bmemb) continue;
+                if(elm->default_value_cmp
+                   && elm->default_value_cmp(bmemb) == 0) {
+                    /* A is absent, but B is present and equal to DEFAULT */
+                    continue;
+                }
                 return -1;
             } else if(!bmemb) {
+                if(elm->default_value_cmp
+                   && elm->default_value_cmp(amemb) == 0) {
+                    /* B is absent, but A is present and equal to DEFAULT */
+                    continue;
+                }
                 return 1;
             }
 		} else {
